@@ -88,7 +88,7 @@ def run(R):
             if dead and any(f != ops for f in fixed[dead[0]:]):
                 continue
             conds.append((entry, nstmt, ro, nf, fixed))
-    gm = chrun.gen_module('C27_conditions', T.source(conds, H.n_ops))
+    gm = chrun.gen_module(f'C27_conditions_{R.tier}', T.source(conds, H.n_ops))
     targets = [f'{gm}.{T.name(*c)}' for c in conds] + [f'{gm}.{T.name(*c, twin=True)}' for c in conds]
     res = chrun.run(targets, per_condition_timeout=pct, workers=8)
     for c in conds:
